@@ -198,7 +198,9 @@ func runRare(root string, in c06In) c06Out {
 			out.Nlog++
 		}
 	}
-	st := se.String()
+	sl := strings.Split(strings.TrimSuffix(se.String(), "\n"), "\n")
+	sort.Strings(sl) // readers log concurrently: the order is not an observable
+	st := strings.Join(sl, "\n")
 	if len(st) > 600 {
 		st = st[:600] + "…"
 	}
